@@ -209,10 +209,12 @@ pub fn run(ctx: &Ctx) -> ! {
     report.stats.extra.insert("generated_crate_build_s".into(), json!(build_s));
     report.stats.extra.insert("generated_crate_builds".into(), json!(builds));
     // minimise each new signature (bounded number of rebuilds overall)
-    let mut budget: usize = ctx.pick(12, 60);
+    // bounded number of rebuilds, shared fairly between the new signatures
+    let mut budget: usize = ctx.pick(16, 60);
+    let per_sig = (budget / unknown.len().max(1)).clamp(2, ctx.pick(8, 12));
     for (sig, (case, what)) in unknown {
         let from = serde_json::to_string(&case).unwrap().len() as u64;
-        let rounds = (budget / 2).clamp(1, ctx.pick(6, 12));
+        let rounds = per_sig.min(budget.max(1));
         let (min, used) = if budget > 0 { minimise(&case, &sig, &tag, rounds) } else { (case.clone(), 0) };
         budget = budget.saturating_sub(used);
         // re-evaluate the minimal case for the explanation
